@@ -115,6 +115,10 @@ def run(ctx):
     rule_partial_else(ctx)
     rule_dc_flow_limits(ctx)
     rule_dcline_sides(ctx)
+    # runopp(init="pf") solves the start power flow in place on the ppci that is handed to the OPF: the bus demand must leave the
+    # Q-limit loop as it entered it, otherwise the OPF constraints are built on a demand reduced by the clamped generators
+    from rules.C04 import rule_qlim
+    rule_qlim(ctx)
 
 
 def rule_dcline_sides(ctx):
@@ -215,6 +219,7 @@ def variants(repo):
         V("partial limit assignment chosen with all()", bg, in_function("_check_gen_vm_limits", lambda s: s.replace("        if np.any(v_max_bound):", "        if np.all(v_max_bound):", 2).replace("    if np.all(v_max_bound):\n        bound_gens", "    if np.any(v_max_bound):\n        bound_gens", 1)), "PARTIAL-ELSE"),
         V("dc flow bound sign", "pandapower/pypower/opf_setup.py", replace_once("upt = branch[il, RATE_A] / baseMVA + Pfinj[il]", "upt = branch[il, RATE_A] / baseMVA - Pfinj[il]"), "DC-FLOW-LIMIT"),
         V("dcline to-side gen with from-side q limit", "pandapower/auxiliary.py", in_function("_add_dcline_gens", replace_once("max_q_mvar=dctab.max_q_to_mvar", "max_q_mvar=dctab.max_q_from_mvar")), "DCLINE-SIDE"),
+        V("start power flow restores only the active demand", "pandapower/pf/run_newton_raphson_pf.py", replace_once("        bus[:, [PD, QD]] = bus_backup_p_q\n", "        bus[:, PD] = bus_backup_p_q[:, 0]\n"), "QLIM-LOOP"),
         V("vmin mask copy-paste", bg, replace_once("ppc[\"bus\"][gen_buses[~v_min_bound], VMIN]", "ppc[\"bus\"][gen_buses[~v_max_bound], VMIN]"), "MASKPAIR"),
         V("load q limits not swapped", bg, in_function("add_q_constraints", replace_once('ppc["gen"][f:t, QMAX] = -tab["min_q_mvar"].values[is_element] + delta', 'ppc["gen"][f:t, QMIN] = -tab["min_q_mvar"].values[is_element] + delta')), "load.min_q_mvar->QMAX"),
         V("load p limit sign", bg, in_function("add_p_constraints", replace_once('ppc["gen"][f:t, PMAX] = - tab["min_p_mw"].values[is_element] + delta', 'ppc["gen"][f:t, PMAX] = tab["min_p_mw"].values[is_element] + delta')), "load.min_p_mw->PMAX"),
